@@ -293,7 +293,12 @@ impl Resolver<'_> {
 
                         // add aliased columns into scope
                         if let Some(alias) = field.alias.clone() {
-                            let id = field.id.unwrap();
+                            let Some(id) = field.id else {
+                                return Err(Error::new_simple(
+                                    "a field with an alias must be resolved before it can be referred to",
+                                )
+                                .with_span(field.span));
+                            };
                             self.root_mod.module.insert_frame_col(NS_THIS, alias, id);
                         }
                         fields_new.push(field);
